@@ -331,7 +331,13 @@ def merge_strictness(ctx, rule='C06-R3'):
     for e in merges:
         lits = guard_literals(e.guard)
         ms = ('p', 'min_sep')
-        strict = any(tag(l) == 'cmp' and l[1] == 'lt' and l[3] == ms and tag(l[2]) == 'lv' for l in lits)
+        is_strict = lambda l: tag(l) == 'cmp' and l[1] == 'lt' and l[3] == ms and tag(l[2]) == 'lv'      # noqa: E731
+        strict = any(is_strict(l) for l in lits)
+        # ... and under nothing else that looks at the distance: a tolerance (`and not np.isclose(delta, min_sep)`) leaves
+        # components a hair less than min_sep apart as separate layers
+        extra = [l for l in lits if not is_strict(l) and T.contains(l, lambda x: x == ms) and
+                 T.contains(l, lambda x: tag(x) == 'lv')]
+        strict = strict and not extra
         ctx.check(strict, rule, NCOMP, e.node, e.loc(),
                   f'mixture components are re-merged under {T.show(e.guard, maxlen=160)}: expected "delta < min_sep" '
                   '(components exactly min_sep apart stay separate, as groups do)',
